@@ -113,7 +113,7 @@ def gen_cases(rng, tier):
         grid_chunks = [3, 3, 2, 5, 5, 5, 2, 3, 5, 1, 3, None]  # par_kw chunksize of the grid histories (None: not passed)
         for (w, t, n, store, entry, inputs), c in zip(grid, grid_chunks):
             cases.append({"kind": "parallel", "seed": rng.randrange(2**32), "workers": w, "target": t, "n": n, "store": store, "entry": entry, "inputs": inputs, "chunksize": c})
-        cases.extend(chunk_cases(rng, 4))
+        cases.extend(chunk_cases(rng, 4, CHUNK_TABLE_QUICK))
         for _ in range(20):
             cases.append({"kind": "serial", "seed": rng.randrange(2**32), "n": 5, "max_inputs": 10})
     else:
@@ -150,15 +150,19 @@ CHUNKSIZES = [1, 2, 3, 5]
 CHUNK_TABLE = [(1, 1), (2, 1), (1, 2), (2, 2), (3, 2), (1, 3), (3, 3), (4, 3), (5, 3), (1, 5), (5, 5), (6, 5), (7, 5), (8, 5), (9, 5)]
 
 
-def chunk_cases(rng, nbatches):
+# quick: only what the 12 grid histories (n, chunksize) do not already cover
+CHUNK_TABLE_QUICK = [(2, 1), (1, 2), (3, 2), (1, 3), (3, 3), (4, 3), (1, 5), (8, 5)]
+
+
+def chunk_cases(rng, nbatches, table=None):
     """par_kw={'max_workers': w, 'chunksize': c}: chunking is documented and must make no observable difference.
     Small 2-3 worker histories, batched so that the harness workers get similar loads"""
     subs = []
-    for i, (n, c) in enumerate(CHUNK_TABLE):
+    for i, (n, c) in enumerate(table or CHUNK_TABLE):
         inputs = ["str", "member", "path", "dstore", "items", "values"][i % 6]
         entry = "as_completed" if inputs == "values" or (i % 4 == 3 and inputs != "items") else "apply_to"
         subs.append(
-            {"kind": "parallel", "seed": rng.randrange(2**32), "workers": 2 + i % 2, "target": "reverse", "n": n,
+            {"kind": "parallel", "seed": rng.randrange(2**32), "workers": 2 + (i % 4 == 0), "target": "reverse", "n": n,
              "store": ["dir", "sql", "fasta"][i % 3], "entry": entry, "inputs": inputs, "chunksize": c}
         )  # fmt: skip
     # longest first, dealt round-robin
